@@ -674,3 +674,36 @@ def specialise_delegate(mod, fn: ast.FunctionDef, cls: str | None = None) -> ast
     new.body = [_Subst(m).visit(s) for s in new.body]
     ast.fix_missing_locations(new)
     return new
+
+
+def loop_as_listcomp(fn: ast.FunctionDef, name: str) -> ast.ListComp | None:
+    """`name = []` followed by `for T in IT: <single-assignment temporaries>; name.append(E)` (no branching, no other use of
+    `name` in between) read as the comprehension `[E' for T in IT]`, E' = E with the temporaries substituted.  None when the
+    construction of `name` is anything else."""
+    body = strip_docstring(fn.body)
+    init = [i for i, s in enumerate(body) if isinstance(s, ast.Assign) and len(s.targets) == 1 and norm(s.targets[0]) == name]
+    if len(init) != 1 or not (isinstance(body[init[0]].value, ast.List) and not body[init[0]].value.elts):
+        return None
+    loops = [s for s in body[init[0] + 1:] if isinstance(s, ast.For) and any(isinstance(n, ast.Name) and n.id == name for n in ast.walk(s))]
+    if len(loops) != 1 or loops[0].orelse:
+        return None
+    lp = loops[0]
+    # nothing else touches `name` between its creation and the loop
+    for s in body[init[0] + 1: body.index(lp)]:
+        if any(isinstance(n, ast.Name) and n.id == name for n in ast.walk(s)):
+            return None
+    temps: dict[str, ast.AST] = {}
+    elt = None
+    for s in lp.body:
+        if isinstance(s, ast.Assign) and len(s.targets) == 1 and isinstance(s.targets[0], ast.Name) and elt is None:
+            temps[s.targets[0].id] = _Subst(dict(temps)).visit(copy.deepcopy(s.value))
+        elif isinstance(s, ast.Expr) and isinstance(s.value, ast.Call) and norm(s.value.func) == f"{name}.append" and len(s.value.args) == 1 and elt is None:
+            elt = _Subst(dict(temps)).visit(copy.deepcopy(s.value.args[0]))
+        else:
+            return None
+    if elt is None:
+        return None
+    comp = ast.ListComp(elt=elt, generators=[ast.comprehension(target=lp.target, iter=lp.iter, ifs=[], is_async=0)])
+    ast.copy_location(comp, lp)
+    ast.fix_missing_locations(comp)
+    return comp
